@@ -111,17 +111,57 @@ impl Valid {
         rv_post: &Report,
         v: &VSpec,
     ) {
+        let kind = ctx.oprec.op.kind();
+        self.check_c02_as(ctx, kind, pre, rv_pre, out, post, rv_post, v);
+    }
+
+    #[allow(clippy::too_many_arguments)]
+    fn check_c02_as<K: SimKernel<D>, const D: usize>(
+        &self,
+        ctx: &mut StepCtx<'_, K, D>,
+        kind: &str,
+        pre: &Snap,
+        rv_pre: &Report,
+        out: &Outcome,
+        post: &Snap,
+        rv_post: &Report,
+        v: &VSpec,
+    ) {
         ctx.stats.evaluations += 1;
         let pre_fine = refval::is_bootstrap(pre) || full_ok(rv_pre);
-        if pre_fine && !(refval::is_bootstrap(post) || full_ok(rv_post)) {
+        // The property speaks about insertion into triangulations (empty, constructed, grown by
+        // insertions). A pre-state that passes the combinatorial levels but is not an embedded
+        // geometric triangulation (overlapping cells left by an Edit-API flip or by one of the
+        // recorded removal/repair findings) is outside that quantifier: counted, not judged.
+        let pre_geometric = refval::is_bootstrap(pre) || crate::geom::embedded(pre, rv_pre) == crate::geom::Tri::Yes;
+        if pre_fine && !pre_geometric {
+            ctx.stats.bump("c02.pre_state_not_an_embedded_triangulation");
+        }
+        if pre_fine && pre_geometric && !(refval::is_bootstrap(post) || full_ok(rv_post)) {
             push_violation(
                 ctx.violations,
                 violation(
                     "C02",
                     "validity-stack-broken-after-insert",
                     ctx.step,
-                    format!("op={}|result={}|kind={}", ctx.oprec.op.kind(), out.class(), rv_post.first().map_or("geo", |x| x.kind)),
-                    format!("pre-state valid, after {} -> {}: {}; {}", ctx.oprec.op.kind(), out.class(), first_violation(rv_post), lib_verdict(ctx)),
+                    format!(
+                        "op={}|result={}|kind={}|d={}|pre={}",
+                        kind,
+                        out.class(),
+                        rv_post.first().map_or("geo", |x| x.kind),
+                        D,
+                        // was the (valid) pre-state an embedded, exactly Delaunay triangulation?
+                        if refval::is_bootstrap(pre) {
+                            "bootstrap"
+                        } else if crate::geom::embedded(pre, rv_pre) != crate::geom::Tri::Yes {
+                            "not-embedded-or-undecided"
+                        } else if refdt::check(pre).violations.is_empty() {
+                            "delaunay"
+                        } else {
+                            "not-delaunay"
+                        }
+                    ),
+                    format!("pre-state valid, after {} -> {}: {}; {}", kind, out.class(), first_violation(rv_post), lib_verdict(ctx)),
                 ),
             );
         }
@@ -163,7 +203,15 @@ impl Valid {
                             "C02",
                             "reported-insertion-wrong-vertex-set",
                             ctx.step,
-                            format!("op={}|key_ok={}|coords_ok={}|diff={}", ctx.oprec.op.kind(), ok_key, coords_ok, ids_diff_class(&expect, &post_ids)),
+                            format!(
+                                "op={}|key_ok={}|coords_ok={}|diff={}|rebuild={}",
+                                kind,
+                                ok_key,
+                                coords_ok,
+                                ids_diff_class(&expect, &post_ids),
+                                // did this call fall back to the heuristic rebuild (which re-inserts, and re-perturbs, every vertex)?
+                                out.tick_kinds.iter().any(|(k, _)| k == "rebuild.attempt")
+                            ),
                             format!(
                                 "reported Inserted: vertices {} -> {}, inserted uuid present: {}, returned key resolves: {}, coords ok: {}; first difference from expectation: {}",
                                 pre.verts.len(), post.verts.len(), inserted.is_some(), ok_key, coords_ok, ids_diff(&expect, &post_ids)
@@ -182,7 +230,7 @@ impl Valid {
                                 "C02",
                                 "checked-insertion-not-delaunay",
                                 ctx.step,
-                                format!("op={}|d={}|{}", ctx.oprec.op.kind(), D, rd.violation_class()),
+                                format!("op={}|d={}|{}", kind, D, rd.violation_class()),
                                 format!("DelaunayCheckPolicy EveryN(1), insertion reported, but {} (cell,vertex) pairs violate the empty-circumsphere property exactly, e.g. {:x?}", rd.violations.len(), rd.violations[0]),
                             ),
                         );
@@ -193,7 +241,7 @@ impl Valid {
                 if post_ids != pre_ids {
                     push_violation(
                         ctx.violations,
-                        violation("C02", "vertex-set-changed-on-failed-insert", ctx.step, format!("op={}|result={}", ctx.oprec.op.kind(), out.class()), format!("vertices {} -> {}", pre.verts.len(), post.verts.len())),
+                        violation("C02", "vertex-set-changed-on-failed-insert", ctx.step, format!("op={}|result={}", kind, out.class()), format!("vertices {} -> {}", pre.verts.len(), post.verts.len())),
                     );
                 }
             }
@@ -565,7 +613,7 @@ impl<K: SimKernel<D>, const D: usize> Monitor<K, D> for Valid {
         if self.c07 {
             self.sweep_c07(ctx, post);
         }
-        if self.c06 || self.c08 {
+        if self.c02 || self.c06 || self.c08 {
             self.sweep_branches(ctx, post, &rv_post);
         }
     }
@@ -593,6 +641,17 @@ impl Valid {
             vs.truncate(if ctx.thorough { 24 } else { 8 });
             ops.extend(vs.into_iter().map(|u| Op::Remove { obj, uuid: Hex128(u) }));
         }
+        if self.c02 {
+            // pool points of this run (same pool as the generator's) that are not present yet
+            let maxv = crate::generate::max_vertices(D, ctx.thorough);
+            let pool = crate::generate::make_pool(&ctx.header.family, D, ctx.header.run_seed, maxv * 3 + 8);
+            let mut fresh: Vec<&Vec<f64>> = pool.iter().filter(|p| !cur.verts.iter().any(|v| crate::snap::coords_bits_eq(&v.coords, p))).collect();
+            rng.shuffle(&mut fresh);
+            for p in fresh.into_iter().take(if ctx.thorough { 8 } else { 4 }) {
+                let data = if rng.chance(1, 2) { Some(rng.range_i64(-1000, 1000) as i32) } else { None };
+                ops.push(Op::Insert { obj, v: VSpec::new(p, rng.uuid128(), data), stats: rng.chance(1, 2) });
+            }
+        }
         if self.c08 && !cur.cells.is_empty() {
             ops.push(Op::Repair { obj });
             ops.push(Op::RepairAdv { obj, seeds: None });
@@ -601,19 +660,49 @@ impl Valid {
             let mut c = base.clone();
             let mut plan = ctx.plan(&[]);
             plan.uuid_seed = crate::rng::derive(crate::rng::derive(ctx.header.run_seed, "branch-uuid", ctx.oprec.idx), "i", i as u64);
+            let n_before = ctx.violations.len();
             let o = run_mutator(&mut c, &plan, op);
-            ctx.stats.executions += 1;
-            *ctx.stats.outcome_classes.entry(format!("branch:{}:{}", op.kind(), o.class())).or_insert(0) += 1;
-            if o.kind != OutKind::Ok {
-                continue;
+            let o = self.judge_branch(ctx, cur, rv_cur, op, o, &c);
+            // the library's own verdict quoted by the checks refers to the world object; say what it is for the branch
+            if ctx.violations.len() > n_before {
+                let verdict = match c.as_triangulation().validate() {
+                    Ok(()) => "Ok".to_string(),
+                    Err(e) => format!("Err({e})"),
+                };
+                if let Ok(path) = std::env::var("DELSIM_DUMP_BRANCH") {
+                    // debugging aid only (never set by the checks): the branch result and its origin
+                    let _ = std::fs::write(&path, serde_json::to_string(&(cur, Snap::of(&c))).unwrap_or_default());
+                }
+                for v in &mut ctx.violations[n_before..] {
+                    v.detail = format!("[branch from the state after step {}: {}; library validate() on the branch result = {verdict}] {}", ctx.step, serde_json::to_string(op).unwrap_or_default(), v.detail);
+                }
             }
-            let post = Snap::of(&c);
-            let rv_post = refval::validate(&post, strength_of(&post), false);
-            match op {
-                Op::Remove { uuid, .. } => self.check_c06(ctx, cur, rv_cur, &o, &post, &rv_post, uuid.0),
-                _ => self.check_c08_as(ctx, op.kind(), cur, rv_cur, &o, &post, &rv_post),
-            }
+            let _ = o;
         }
+    }
+
+    fn judge_branch<K: SimKernel<D>, const D: usize>(&self, ctx: &mut StepCtx<'_, K, D>, cur: &Snap, rv_cur: &Report, op: &Op, o: Outcome, c: &crate::snap::Dt<K, D>) -> Outcome {
+        ctx.stats.executions += 1;
+        *ctx.stats.outcome_classes.entry(format!("branch:{}:{}", op.kind(), o.class())).or_insert(0) += 1;
+        if let Op::Insert { v, .. } = op {
+            // insertions are judged whatever their outcome (failed ones must change nothing)
+            if !matches!(o.kind, OutKind::Unresolved | OutKind::Panic) {
+                let post = Snap::of(c);
+                let rv_post = refval::validate(&post, strength_of(&post), false);
+                self.check_c02_as(ctx, op.kind(), cur, rv_cur, &o, &post, &rv_post, v);
+            }
+            return o;
+        }
+        if o.kind != OutKind::Ok {
+            return o;
+        }
+        let post = Snap::of(c);
+        let rv_post = refval::validate(&post, strength_of(&post), false);
+        match op {
+            Op::Remove { uuid, .. } => self.check_c06(ctx, cur, rv_cur, &o, &post, &rv_post, uuid.0),
+            _ => self.check_c08_as(ctx, op.kind(), cur, rv_cur, &o, &post, &rv_post),
+        }
+        o
     }
 }
 
